@@ -103,6 +103,6 @@ C09_QUICK_PREFIXES = [
     "C08.e1.char_arith.", "C06.e1.add.byte_char", "C06.e1.sub.byte_char",   # char::from_u32 / casts
     "C02.e1.signature.", "C02.e2.sig.", "C02.e2.stack.", "C03.e1.signature.",  # u16 / i32 truncation and overflow
     "C07.e3.helper.rotate.3", "C11.e3.helper.remove_n.3", "C07.e3.helper.dup_values.3", "C07.e3.helper.copy_n_down.3",  # slice index / rotate preconditions
-    "C16.e3.map.",             # probe loops: index arithmetic, `*len -= 1`
-    "C17.e1.", "C17.e3.load.", "C17.e3.rep.roundtrip.list3.", "C08.e3.", "C09.", "C11.e3.frames.reset", "C11.e3.frames.call_leaf.1_2",
+    "C16.e3.map.remove_impl", "C16.e3.map.insert_impl", "C16.e3.map.get", "C16.e3.map.set_tombstones", "C16.e3.map.rotate", "C16.e3.map.drop",  # probe loops: index arithmetic, `*len -= 1`, `-by`
+    "C17.e1.", "C17.e3.load.", "C17.e3.rep.roundtrip.list3.", "C08.e3.transpose", "C08.e3.derive_new_shape", "C08.e3.pervade_dim", "C08.e3.reverse", "C08.e3.grade.rise_indices.list3", "C09.", "C11.e3.frames.reset", "C11.e3.frames.call_leaf.1_2",
 ]
